@@ -122,6 +122,41 @@ def judge_notnew(case):
     return None
 
 
+def gen_late_case(rng):
+    """nodes that are (re-)attached to the overriding document only after it has been parsed - !prev moves an existing node, !extend /
+    !append grow a list - placed one or two levels below the !notnew tag; whether the result would hold a path the config built so far
+    does not have is computed from the plain data"""
+    depth = rng.choice([1, 2, 2])
+    base_doc = '{a: {b: {x: 1}, l: [1]}, c: {x: 5}, d: {x: 7, y: 8}, e: [3, 4]}'
+    kind = rng.choice(['prev_same', 'prev_new', 'extend', 'append'])
+    if kind == 'prev_same':
+        inner, target, creates = '!prev c', 'b', False          # c = {x: 5}: only the existing key a.b.x
+    elif kind == 'prev_new':
+        inner, target, creates = '!prev d', 'b', True           # d = {x, y}: a.b.y does not exist
+    elif kind == 'extend':
+        inner, target, creates = '!extend [2]', 'l', True       # a.l[1] does not exist
+    else:
+        inner, target, creates = '!append [2]', 'l', True
+    over = '!notnew {a: {%s: %s}}' % (target, inner) if depth == 2 else None
+    if depth == 1:
+        # directly below the tagged node
+        over = '{a: !notnew {%s: %s}}' % (target, inner)
+    return dict(late=True, texts=[base_doc, over], creates=creates, kind=kind, depth=depth)
+
+
+def judge_late(case):
+    kind, res = oracles.build_plain(case['texts'])
+    if case['creates']:
+        if kind == 'ok':
+            return dict(texts=case['texts'], reason='a node attached after parsing (!prev / !extend / !append) created a path below !notnew', result=repr(res))
+        if kind != 'MergeError':
+            return dict(texts=case['texts'], reason='expected a MergeError', got=kind, message=res)
+        return None
+    if kind != 'ok':
+        return dict(texts=case['texts'], reason='an override that creates no path failed', got=kind, message=res)
+    return None
+
+
 def strip_tags(n):
     if n[0] == 'map':
         return ('map', None, [(k, strip_tags(c)) for k, c in n[2]])
@@ -346,6 +381,8 @@ def run(rep, tier, rng):
         rep.count('cmdline ' + c['mode'])
         rep.case(gen.render(c['base']) + render_path(c['path']) + c['value'], len(c['path']) >= 2, sample=dict(base=gen.render(c['base']), arg=render_path(c['path']) + '=' + c['value']))
     base.run_oracle(rep, 'C08', '!notnew never creates paths', nn, judge_notnew, show=lambda c: dict(base=gen.render(c['base']), newer=gen.render(c['newer'])))
+    base.run_oracle(rep, 'C08', 'nodes attached after parsing (!prev / !extend / !append) one or two levels below !notnew',
+                    [gen_late_case(rng) for _ in range(40 if tier == 'quick' else 400)], judge_late)
     cc = [gen_call_case(rng) for _ in range(60 if tier == 'quick' else 600)]
     base.run_oracle(rep, 'C08', '!notnew replacing a subtree that holds a function node', cc, judge_call, show=lambda c: dict(base=gen.render(c['base']), newer=gen.render(c['newer']), creates=c['creates'], call=True))
     base.run_oracle(rep, 'C08', 'command-line override sets exactly one existing path', cm, judge_cmd,
@@ -357,6 +394,10 @@ def replay(data):
     if 'input' in r:
         from ..reparse import parse_doc
         x = r['input']
+        if x.get('late'):
+            f = judge_late(x)
+            print('replay:', 'property FAILS' if f else 'property holds', f or '')
+            return 1 if f else 0
         if x.get('spec'):
             print('replay: the Coq evaluation of upd_nn is part of the check run; texts:', x['texts'], 'implementation gave', x['implementation'])
             return 1
